@@ -69,13 +69,16 @@ LAYOUTS = st.sampled_from(["C", "C", "F", "strided"])
 @st.composite
 def front_case(draw):
     cfg = draw(gen.e2e_config(front=("single", "joint"), max_N=2, max_W=3, max_K=3, t_range=(30, 70), limits=(1, 2, 3),
-                              lam_forms=("scalar", "const_matrix", "random_matrix"), beta_forms=("scalar", "vector")))
+                              lam_forms=("scalar", "const_matrix", "random_matrix", "asymmetric_matrix"), beta_forms=("scalar", "vector")))
     cfg["outcome"] = draw(st.sampled_from(["ok", "ok", "ok", "wrong_front_end", "optimiser_fault", "no_donor", "bad_lambda"]))
     cfg["data_layout"] = draw(LAYOUTS)
     cfg["data_readonly"] = draw(st.booleans())
     cfg["param_layout"] = draw(LAYOUTS)
     cfg["param_readonly"] = draw(st.booleans())
     cfg["fault_at"] = draw(st.integers(0, 5))
+    cfg["data_dtype"] = draw(st.sampled_from(["float64", "float64", "float32", "int64"]))
+    cfg["reuse_buffers"] = False
+    cfg["prior_calls_on_same_arrays"] = False
     if cfg["front"] == "joint":
         # the joint front end documents a per-point array for the switching cost as well
         cfg["beta_form"] = draw(st.sampled_from(["scalar", "vector", "vector"]))
@@ -98,6 +101,10 @@ class InjectedFault(Exception):
 def _front_call(cfg, readonly, layout_kind, p_readonly, p_layout):
     import fast_ticc
     series = e2e.build_series(dict(cfg))
+    if cfg.get("data_dtype") == "float32":
+        series = [s.astype(np.float32) for s in series]
+    elif cfg.get("data_dtype") == "int64":
+        series = [np.round(s * 100).astype(np.int64) for s in series]
     series = [layout(s, layout_kind, readonly) for s in series]
     nw = cfg["N"] * cfg["W"]
     total = sum(len(s) - cfg["W"] + 1 for s in series)
@@ -146,6 +153,7 @@ def execute_front(cfg, t):
         raise Violation(f"the list of data series was modified ({when})")
     outcome = cfg["outcome"]
     t.cls(f"outcome_{outcome}")
+    t.cls(f"data_{cfg.get('data_dtype', 'float64')}")
     t.cls("returned" if tr.ok else f"raised_{type(tr.exc).__name__}")
     if outcome == "ok" and tr.ok and (cfg["data_readonly"] or cfg["param_readonly"]):
         # the same call with writable C-ordered inputs must give the same result bit for bit
@@ -187,7 +195,8 @@ def opt_case(draw):
     W = draw(st.integers(1, 3))
     return {"N": N, "W": W, "seed": draw(st.integers(0, 2 ** 32 - 1)), "s_layout": draw(LAYOUTS), "s_readonly": draw(st.booleans()),
             "lam_matrix": draw(st.booleans()), "l_layout": draw(LAYOUTS), "l_readonly": draw(st.booleans()),
-            "fail": draw(st.sampled_from([None, None, "bad_lambda", "callback_raises"]))}
+            "fail": draw(st.sampled_from([None, None, "bad_lambda", "callback_raises"])),
+            "s_kind": draw(st.sampled_from(["cov", "cov", "qdq"]))}
 
 
 def execute_opt(case, t):
@@ -197,6 +206,10 @@ def execute_opt(case, t):
     rng = np.random.default_rng(case["seed"])
     A = rng.normal(size=(3 * n + 2, n))
     S0 = np.atleast_2d(np.cov(A.T))
+    if case.get("s_kind") == "qdq":
+        # a covariance assembled as Q diag(d) Q^T: symmetric only up to rounding, which is what callers really have
+        Q, _ = np.linalg.qr(rng.normal(size=(n, n)))
+        S0 = (Q * rng.uniform(0.5, 2.0, size=n)) @ Q.T
     lam0 = np.full((n, n), 0.2) + np.eye(n) * 0.1 if case["lam_matrix"] else 0.2
 
     def call(s_ro, l_ro):
